@@ -157,9 +157,13 @@ def extract(repo, ci):
 
 def run(ctx):
     ctx.attempt(kinematics_rule, ctx)
-    from .c18ops import operator_rule, surface_operator_rule, clenshaw_curtis_rule
+    from .c18ops import operator_rule, surface_operator_rule, clenshaw_curtis_rule, adaptive_bookkeeping_rule
 
     ctx.attempt(clenshaw_curtis_rule, ctx)
+    ctx.attempt(adaptive_bookkeeping_rule, ctx)
+    from .c16 import active_stress_guard_rule as _active_stress_guard_rule
+
+    ctx.attempt(_active_stress_guard_rule, ctx, "R18.16")
     ctx.attempt(surface_operator_rule, ctx)
     ctx.attempt(operator_rule, ctx)
     # 'over arbitrarily many steps': no memo of the step-start state survives the end of the step
